@@ -1,9 +1,9 @@
 package props
 
 import (
-	"go/types"
 	"fmt"
 	"go/token"
+	"go/types"
 	"strings"
 
 	"golang.org/x/tools/go/ssa"
@@ -264,7 +264,7 @@ func runC01(c *core.Ctx, o Options) {
 		samples = append(samples, il.P.CondString()+" ⊢ "+il.Seq.String())
 		// L2: against every consistent length path
 		region := append(an.Seq{}, seq[4:]...) // from KV(msgType)
-		region = append(region, soh)          // the SOH before the CheckSum field (from Prepare's join)
+		region = append(region, soh)           // the SOH before the CheckSum field (from Prepare's join)
 		want := region.Len()
 		n := 0
 		for _, lp := range lens {
